@@ -16,6 +16,9 @@ use crate::machine::machine_errors::*;
 
 use dashu::base::Abs;
 use dashu::base::BitTest;
+use dashu::base::DivRem;
+use dashu::base::Sign;
+use dashu::integer::UBig;
 use num_order::NumOrd;
 use ordered_float::{Float, OrderedFloat};
 
@@ -381,13 +384,83 @@ impl From<Fixnum> for Integer {
     }
 }
 
+// Correctly rounded (round to nearest, ties to even) conversion of `num / den` to `f64`,
+// `den` > 0. Values beyond the range of `f64` become +/- infinity, values below half of the
+// least subnormal become zero. `IBig::to_f64` and `RBig::to_f64` of dashu 0.4.2 are not used:
+// the former drops a sticky bit (integers above 128 bits), the latter rounds twice.
+fn ratio_to_f64(num: &Integer, den: &UBig) -> f64 {
+    if num.is_zero() {
+        return 0.0;
+    }
+
+    let (sign, n) = num.clone().into_parts();
+
+    // scale so that the integer quotient has 63 or 64 bits
+    let shift = n.bit_len() as isize - den.bit_len() as isize - 63;
+    let (n, d) = if shift >= 0 {
+        (n, den << shift as usize)
+    } else {
+        (n << (-shift) as usize, den.clone())
+    };
+
+    let (q, r) = n.div_rem(&d);
+    let q = u64::try_from(q).unwrap();
+    let sticky = !r.is_zero();
+
+    // 2^(top - 1) <= |num / den| < 2^top
+    let top = 64 - q.leading_zeros() as isize + shift;
+
+    let magnitude = if top > 1024 {
+        f64::INFINITY
+    } else if top < -1074 {
+        0.0
+    } else {
+        // exponent of the last place of the result: 53 significant bits, fewer for subnormals
+        let s = std::cmp::max(top - 53, -1074);
+        let drop = (s - shift) as u32; // 10 ..= 64 low bits of q are rounded away, once
+        let q = q as u128;
+        let mut m = (q >> drop) as u64;
+        let rem = q & ((1u128 << drop) - 1);
+        let half = 1u128 << (drop - 1);
+
+        if rem > half || (rem == half && (sticky || m & 1 == 1)) {
+            m += 1;
+        }
+
+        // m <= 2^53 and 2^s are representable, and so is m * 2^s unless it is 2^1024
+        let scale = if s >= -1022 {
+            f64::from_bits(((s + 1023) as u64) << 52)
+        } else {
+            f64::from_bits(1u64 << (s + 1074))
+        };
+
+        (m as f64) * scale
+    };
+
+    if sign == Sign::Negative {
+        -magnitude
+    } else {
+        magnitude
+    }
+}
+
+#[inline]
+pub(crate) fn integer_to_f64(n: &Integer) -> f64 {
+    ratio_to_f64(n, &UBig::ONE)
+}
+
+#[inline]
+pub(crate) fn rational_to_f64(r: &Rational) -> f64 {
+    ratio_to_f64(r.numerator(), r.denominator())
+}
+
 // floating point rounding function -- 9.1.4.1.
 pub(crate) fn rnd_f(n: &Number) -> f64 {
     match n {
         &Number::Fixnum(n) => n.get_num() as f64,
-        Number::Integer(n) => n.to_f64().value(),
+        Number::Integer(n) => integer_to_f64(n),
         &Number::Float(OrderedFloat(f)) => f,
-        Number::Rational(r) => r.to_f64().value(),
+        Number::Rational(r) => rational_to_f64(r),
     }
 }
 
@@ -418,12 +491,12 @@ pub(crate) fn float_fn_to_f(n: i64) -> Result<f64, EvalError> {
 
 #[inline]
 pub(crate) fn float_i_to_f(n: &Integer) -> Result<f64, EvalError> {
-    classify_float(n.to_f64().value())
+    classify_float(integer_to_f64(n))
 }
 
 #[inline]
 pub(crate) fn float_r_to_f(r: &Rational) -> Result<f64, EvalError> {
-    classify_float(r.to_f64().value())
+    classify_float(rational_to_f64(r))
 }
 
 #[inline]
@@ -524,12 +597,12 @@ impl PartialEq for Number {
             (&Number::Fixnum(n1), &Number::Float(n2)) => OrderedFloat(n1.get_num() as f64).eq(&n2),
             (&Number::Float(n1), &Number::Fixnum(n2)) => n1.eq(&OrderedFloat(n2.get_num() as f64)),
             (Number::Integer(n1), Number::Integer(n2)) => n1.eq(n2),
-            (Number::Integer(n1), Number::Float(n2)) => OrderedFloat(n1.to_f64().value()).eq(n2),
-            (&Number::Float(n1), Number::Integer(n2)) => n1.eq(&OrderedFloat(n2.to_f64().value())),
+            (Number::Integer(n1), Number::Float(n2)) => OrderedFloat(integer_to_f64(n1)).eq(n2),
+            (&Number::Float(n1), Number::Integer(n2)) => n1.eq(&OrderedFloat(integer_to_f64(n2))),
             (Number::Integer(n1), Number::Rational(n2)) => n1.num_eq(&**n2),
             (Number::Rational(n1), Number::Integer(n2)) => n1.num_eq(&**n2),
-            (Number::Rational(n1), &Number::Float(n2)) => OrderedFloat(n1.to_f64().value()).eq(&n2),
-            (&Number::Float(n1), Number::Rational(n2)) => n1.eq(&OrderedFloat(n2.to_f64().value())),
+            (Number::Rational(n1), &Number::Float(n2)) => OrderedFloat(rational_to_f64(n1)).eq(&n2),
+            (&Number::Float(n1), Number::Rational(n2)) => n1.eq(&OrderedFloat(rational_to_f64(n2))),
             (&Number::Float(f1), &Number::Float(f2)) => f1.eq(&f2),
             (Number::Rational(r1), Number::Rational(r2)) => r1.eq(r2),
         }
@@ -597,8 +670,8 @@ impl Ord for Number {
             (&Number::Fixnum(n1), &Number::Float(n2)) => OrderedFloat(n1.get_num() as f64).cmp(&n2),
             (&Number::Float(n1), &Number::Fixnum(n2)) => n1.cmp(&OrderedFloat(n2.get_num() as f64)),
             (&Number::Integer(n1), &Number::Integer(n2)) => (*n1).cmp(&*n2),
-            (&Number::Integer(n1), Number::Float(n2)) => OrderedFloat(n1.to_f64().value()).cmp(n2),
-            (&Number::Float(n1), Number::Integer(n2)) => n1.cmp(&OrderedFloat(n2.to_f64().value())),
+            (&Number::Integer(n1), Number::Float(n2)) => OrderedFloat(integer_to_f64(&n1)).cmp(n2),
+            (&Number::Float(n1), Number::Integer(n2)) => n1.cmp(&OrderedFloat(integer_to_f64(n2))),
             (&Number::Integer(n1), &Number::Rational(n2)) => {
                 (*n1).num_partial_cmp(&*n2).unwrap_or(Ordering::Less)
             }
@@ -606,10 +679,10 @@ impl Ord for Number {
                 (*n1).num_partial_cmp(&*n2).unwrap_or(Ordering::Less)
             }
             (&Number::Rational(n1), &Number::Float(n2)) => {
-                OrderedFloat(n1.to_f64().value()).cmp(&n2)
+                OrderedFloat(rational_to_f64(&n1)).cmp(&n2)
             }
             (&Number::Float(n1), &Number::Rational(n2)) => {
-                n1.cmp(&OrderedFloat(n2.to_f64().value()))
+                n1.cmp(&OrderedFloat(rational_to_f64(&n2)))
             }
             (&Number::Float(f1), &Number::Float(f2)) => f1.cmp(&f2),
             (&Number::Rational(r1), &Number::Rational(r2)) => (*r1).cmp(&*r2),
